@@ -286,6 +286,29 @@ theorem C21_deletes_only_own_keys (b : Backend) (e : Event) (cl : Client) (hc : 
   case qosComplete pk => simp [interp, onQosComplete] at h; exact Or.inr (Or.inr (Or.inl ⟨pk.pid, h⟩))
   case qosDropped pk => simp [interp, onQosComplete] at h; exact Or.inr (Or.inr (Or.inl ⟨pk.pid, h⟩))
 
+/-! ## the three clauses of the property: what is proved of each (`_partial`) -/
+
+/-- **C21 no loss, partial**: at every crash point after a record was written and before its key is touched again the
+    record is in the store (and, for a subscription, in the restarted broker's topic index: `C21_no_loss_subscription`).
+    Not covered: acknowledged state whose record is written only AFTER the acknowledgement (`C21_no_loss_counterexample`). -/
+theorem C21_no_loss_partial (kv₀ : KV) (pre post : List Write) (k : PKey) (r : Record) (h : ∀ w ∈ post, w.key ≠ k) :
+    (applyWrites kv₀ (pre ++ .set k r :: post)).get k = some r := C21_no_loss_store kv₀ pre post k r h
+
+/-- **C21 no resurrection, partial**: the restarted broker's index holds only subscriptions whose records are in the store,
+    and a deleted record stays absent at every later crash point. Not covered: sessions whose subscription records are
+    still in the store when the session is gone (`C21_no_resurrection_counterexample`). -/
+theorem C21_no_resurrection_partial (b : Backend) (kv₀ : KV) (pre post : List Write) (id f : Str)
+    (h : ∀ w ∈ post, w.key ≠ subscriptionKey b id f) :
+    (applyWrites kv₀ (pre ++ .del (subscriptionKey b id f) :: post)).get (subscriptionKey b id f) = none ∧
+    ∀ e ∈ (restart (readback b (applyWrites kv₀ (pre ++ .del (subscriptionKey b id f) :: post)))).subs,
+      ∃ s ∈ (readback b (applyWrites kv₀ (pre ++ .del (subscriptionKey b id f) :: post))).subs, s.client = e.client ∧ s.filter = e.filter :=
+  ⟨C21_no_resurrection_store kv₀ pre post _ h, fun e he => C21_restored_subscription_was_stored _ e he⟩
+
+/-- **C21 superseded harmless, partial**: the deletes of any event are keyed by that event's own client id. Not covered:
+    the live session with the SAME identifier (`C21_superseded_harmless_counterexample`). -/
+theorem C21_superseded_harmless_partial (b : Backend) (e : Event) (cl : Client) (hc : e.client? = some cl) (k : PKey)
+    (h : Write.del k ∈ interp b e) : ownKey b cl.id k := C21_deletes_only_own_keys b e cl hc k h
+
 /-! ## counterexamples (logs printed by `sr.crashsweep` on the real broker, corpus/C21) -/
 
 def a4 : Client := { id := [97], pv := 4, listener := [116] }                    -- persistent session "a" (MQTT 3.1.1)
